@@ -22,7 +22,7 @@ from mc.models import c19_ref as ref
 PROPERTY = 'C19'
 LEVEL = 'exploration'
 RULE = (
-  'part T: every names tuple over {None,x,y,z} of rank 1-3 without a repeated name x every '
+  'part T: every names tuple over {None,x,y,z} of rank 0-3 without a repeated name x every '
   'stacking position k in [0, current rank] per level (params at k, the mutable collection at '
   'the mirrored position) x every scan/vmap nest up to the tier '
   'depth (distinct partition name and distinct axis size per level) x API flavour (Linen '
@@ -61,8 +61,8 @@ NEGATIVE_AXES = os.environ.get('C19_NEGATIVE_AXES', '1') == '1'   # on by defaul
 def bounds(tier):
   th = tier == 'thorough'
   return dict(
-    ranks=[1, 2, 3], names_alphabet=[None, 'x', 'y', 'z'],
-    names_tuples_per_rank={r: len(ref.all_names(r)) for r in (1, 2, 3)},
+    ranks=[0, 1, 2, 3], names_alphabet=[None, 'x', 'y', 'z'],
+    names_tuples_per_rank={r: len(ref.all_names(r)) for r in (0, 1, 2, 3)},
     stacking_positions='every k in [0, current rank] at every level; params at k, the '
                        'mutable collection at the mirrored position',
     nests=('scan, vmap, every 2-nest (ranks 1-3), every 3-nest (rank 1), the two alternating '
@@ -123,7 +123,7 @@ def units(tier, seed):
           for group in ('linen', 'nnx'):
             T(group, rank, 'full', [(kinds, (k0, k1, k2)) for k1 in range(rank + 2)
                                     for k2 in range(rank + 3)], 3)
-  for rank in (3, 2, 1):
+  for rank in (3, 2, 1, 0):   # rank 0: a scalar annotated with the empty names tuple
     for depth in (2, 1):
       for kinds in ref.kind_tuples(depth):
         if depth == 2 and not th and (kinds[0] == kinds[1] or rank == 3):
